@@ -812,7 +812,7 @@ class C12(Property):
         r = case["renders"][failure["render"]]
         kw = dict((k, v) for k, v in r["kwargs"])
         ty = kw.get("type", {}).get("v")
-        if r["tag"] != "input" or not isinstance(ty, str) or ty not in SECRET:
+        if r["tag"] != "input" or not isinstance(ty, str) or ty.lower() not in SECRET:
             return None
         av = kw.get("auto_value")
         forced = av is not None and (av.get("v") is True or (isinstance(av.get("v"), str) and av["v"].lower() in ("1", "true", "t", "on", "yes")))
